@@ -1224,9 +1224,24 @@ func vf32ErrClass(err error) string {
 
 // ---- the check ------------------------------------------------------------------------------
 
+var (
+	vf32CtlMu      sync.Mutex
+	vf32Effective  = map[string]int{} // RPC -> positive controls that were executed (and effective where an effect was planned)
+	vf32GateFailed = map[string]int{} // RPC -> authorised requests that passed the gate and failed inside the engine
+)
+
 func TestVerif_C32_Node(t *testing.T) {
 	r := verifkit.Start(t, "C32", "exploration")
 	defer r.Finish()
+	defer func() {
+		vf32CtlMu.Lock()
+		defer vf32CtlMu.Unlock()
+		for name, n := range vf32GateFailed {
+			if vf32Effective[name] == 0 {
+				r.Inconclusive(fmt.Sprintf("%s: %d authorised requests failed inside the engine and none was executed: its rejection checks are vacuous", name, n))
+			}
+		}
+	}()
 	r.SetRule("storage-node control server: RPC inventory from the generated gRPC service descriptor (unary and streaming) + server interface (reflection); per round a fresh world (real engine, 3 temp shards, 2 with write-cache, ~15 objects; real placement service and replicator over recording sources; recording NodeState/HealthChecker) and a Server with 1-3 seeded administrator keys (sometimes plus non-key entries); every RPC (seeded order) x effective body variant x credential mode (no signature, empty signature, stranger key, admin key with stranger's signature, admin signature over another effective body / extended body / whole request / empty data, flipped / truncated / empty / zero signature, non-key list entry, valid signature by administrators of another server, server not yet ready, credential of an earlier authorised request of this server instance - first (a priming health check) / latest / random / the one this body was just accepted with - replayed on this or the alternative body, stateless modes repeated right after the body was accepted, every single field of the body message (from its descriptor) changed after an administrator signed the body / the body sent as generated under a signature over the body with that field changed / the just accepted credential on the body with one field changed, correct) goes through the generated handler as wire bytes with a full world snapshot before and after; distinct = (RPC, body variant class, mode, number of admin keys); non-trivial = the same body was then executed under a correct signature and showed its effect")
 	r.Assume("the engine, placement service and replicator are real; container/netmap sources, NodeState and HealthChecker are recording fakes; the write-cache flush scheduler is parked at hook writecache.sched.handoff and the GC remover interval is 24h so that only requests change the world")
 	r.Assume("the node's own response-signing key is not used as a credential (cmd/neofs-node passes it as an authorised key by configuration)")
@@ -1412,6 +1427,19 @@ func vf32Round(r *verifkit.Run, w *vf32World, inv []vf32RPC, rng *rand.Rand, rou
 						w.accepted = append(w.accepted, vf32Cred{rpc: rpc.name, key: bytes.Clone(sig.GetKey()), sig: bytes.Clone(sig.GetSign()), body: vf32Body(req)})
 					}
 					executed := (callErr == nil && responded) || len(diff) > 0 || len(muts) > 0 || len(reads) > 0
+					// The authorised request passed the signature gate and failed inside the real engine
+					// before anything observable happened (seen once in a thorough run: EvacuateShard met an
+					// object of this world that the shard could not read).  That says nothing about the
+					// property; the body's negative cases were judged on their own (rejected, no effect).  It
+					// is counted, and the per-RPC guard below still demands an effective control for every RPC.
+					if callErr != nil && len(diff) == 0 && len(muts) == 0 && strings.Contains(callErr.Error(), "code = Internal") {
+						r.Count("node_authorised_passed_gate_but_engine_failed", 1)
+						vf32CtlMu.Lock()
+						vf32GateFailed[rpc.name]++
+						vf32CtlMu.Unlock()
+						r.Seen("node_authorised_engine_failures", rpc.name+": "+vf32ErrClass(callErr))
+						continue
+					}
 					if !executed {
 						r.Inconclusive(fmt.Sprintf("positive control failed: correctly signed %s (%s) was not executed: %v", rpc.name, v.name, callErr))
 						continue
@@ -1426,6 +1454,9 @@ func vf32Round(r *verifkit.Run, w *vf32World, inv []vf32RPC, rng *rand.Rand, rou
 						r.Seen("node_effect_kinds", rpc.name+":"+vf32DiffKind(diff)+map[bool]string{true: "+dependency", false: ""}[len(muts) > 0])
 					}
 					r.Seen("node_rpcs_with_positive_control", rpc.name)
+					vf32CtlMu.Lock()
+					vf32Effective[rpc.name]++
+					vf32CtlMu.Unlock()
 					if callErr != nil {
 						r.Seen("node_authorised_errors", rpc.name+": "+vf32ErrClass(callErr))
 					}
